@@ -50,6 +50,7 @@ class Check(HCheck):
     def spaces(self, tier):
         thorough = tier == "thorough"
         D1, D2 = Ax + b"p:1|", Ax + b"p:2|"
+        LA = A + L.long_stem(149)
         ops = [
             al.page(A),
             al.page(Ab),
@@ -64,6 +65,10 @@ class Check(HCheck):
             al.create(Ax),
             al.rmprefix(S),
             al.delete(0),
+            # a 3-block stem directly below the prefix (first inserted: its short siblings hang
+            # below it and are read right after it), and one two levels down
+            al.links((LA, Ab), (Ax, LA), (Az, LA)),
+            al.links((al.LONGP, Ax), (Ab, al.LONGP)),
         ]
         d = 4 if thorough else 3
         # long inbound chains (one source 70 times; 70 distinct sources), two corpora around
